@@ -1,5 +1,100 @@
-(* FeaturesIO.v — stub: replaced by the real decoder/runner when the property is built. *)
-From Coq Require Import List.
-From M Require Import Sx.
+(* FeaturesIO.v — decoding of generated cases and encoding of observations for the
+   state-feature model (dispatch kind 8).
+   case := [order; states; transitions; ignore; nmodels; init; history; tags; hooks]
+     order       : list of feature codes (0 Tags, 1 Error, 2 Volatile, 3 Retry)
+     states      : list of [id; [g_tags g_accepted g_hook g_retry]; enter; exit; tags; accepted;
+                            hook; retries; on_failure option]
+     transitions : list of [event; src; dst option]
+     history     : list of [model; event]
+     tags, hooks : the tag ids / hook ids that are inspected
+   observation := [1; [1; exn]]                       construction raised
+                | [1; [0; tag table; steps; steps of the undecorated machine (no hooks inspected);
+                       steps of the specification FeaturesSpec.spec_run (used to validate the
+                       harness's oracle, not compared with the implementation)]]
+     tag table : per state, per inspected tag: [] (AttributeError) or [bool]
+     step      : [items; result; per model [state; per inspected hook: [] or [object id]]] *)
+From Coq Require Import List Arith Bool.
+From M Require Import Sx Features FeaturesSpec.
 Import ListNotations.
-Definition run_features_case (x : sx) : sx := L [N 0].
+
+Definition d_feature (x : sx) : option feature :=
+  match x with
+  | N 0 => Some FTags | N 1 => Some FError | N 2 => Some FVolatile | N 3 => Some FRetry
+  | _ => None
+  end.
+
+Definition d_given (x : sx) : option fgiven :=
+  match x with
+  | L [a; b; c; d] =>
+      do a' <- d_bool a; do b' <- d_bool b; do c' <- d_bool c; do d' <- d_bool d;
+      Some (mkGiven a' b' c' d')
+  | _ => None
+  end.
+
+Definition d_fstate (x : sx) : option (fstate_id * (fgiven * fsdef)) :=
+  match x with
+  | L [N s; g; en; ex; tg; acc; N hk; N rt; onf] =>
+      do g' <- d_given g; do en' <- d_list d_nat en; do ex' <- d_list d_nat ex;
+      do tg' <- d_list d_nat tg; do acc' <- d_bool acc; do onf' <- d_option d_nat onf;
+      Some (s, (g', mkFS en' ex' tg' acc' hk rt onf'))
+  | _ => None
+  end.
+
+Definition d_ftrans (x : sx) : option ftrans :=
+  match x with
+  | L [N e; N s; d] => do d' <- d_option d_nat d; Some (mkFT e s d')
+  | _ => None
+  end.
+
+Definition e_fexn (e : fexn) : sx :=
+  match e with EMachine => N 0 | EAttribute => N 1 | EType => N 2 end.
+Definition e_fitem (i : fitem) : sx :=
+  match i with
+  | IExit cb m s => L [N 0; N cb; N m; N s]
+  | IEnter cb m s => L [N 1; N cb; N m; N s]
+  | IFail cb m s => L [N 2; N cb; N m; N s]
+  end.
+Definition e_fres (r : fres) : sx :=
+  match r with RTrue => L [N 0; N 1] | RFalse => L [N 0; N 0] | RExn e => L [N 1; e_fexn e] end.
+
+Definition e_model (hooks : list nat) (r : mrec) : sx :=
+  L [N (m_state r); L (map (fun h => e_option e_nat (m_hooks r h)) hooks)].
+
+Definition e_step (nm : nat) (hooks : list nat) (o : list fitem * world * fres) : sx :=
+  match o with
+  | (tr, w, res) =>
+      L [e_list e_fitem tr; e_fres res; L (map (fun m => e_model hooks (w_m w m)) (seq 0 nm))]
+  end.
+
+(* a call of the specification, in the same format (hooks read through spec_hooks) *)
+Definition e_sstep (c : fcfg) (nm : nat) (hooks : list nat) (o : list fitem * sworld * fres) : sx :=
+  match o with
+  | (tr, sw, res) =>
+      L [e_list e_fitem tr; e_fres res;
+         L (map (fun m => L [N (sp_state (sw_m sw m));
+                             L (map (fun h => e_option e_nat (spec_hooks c (sw_m sw m) h)) hooks)])
+                (seq 0 nm))]
+  end.
+
+Definition e_tagtable (c : fcfg) (tags : list nat) : sx :=
+  L (map (fun sd => L (map (fun t => e_option e_bool (tag_answer c (fst sd) t)) tags)) (c_states c)).
+
+Definition run_features_case (x : sx) : sx :=
+  match x with
+  | L [ox; sx_; tx; ign; N nm; N s0; hx; tgx; hkx] =>
+      match d_list d_feature ox, d_list d_fstate sx_, d_list d_ftrans tx, d_bool ign,
+            d_list (d_pair d_nat d_nat) hx, d_list d_nat tgx, d_list d_nat hkx with
+      | Some o, Some sts, Some ts, Some ig, Some h, Some tags, Some hooks =>
+          match build o (map snd sts) with
+          | Some e => L [N 1; L [N 1; e_fexn e]]
+          | None =>
+              let c := mkCfg o (map (fun p => (fst p, snd (snd p))) sts) ts ig in
+              L [N 1; L [N 0; e_tagtable c tags;
+                         L (map (e_step nm hooks) (frun c (init_world s0) h));
+                         L (map (e_step nm []) (frun (plain_cfg c) (init_world s0) h));
+                         L (map (e_sstep c nm hooks) (spec_run c (spec_init s0) h))]]
+          end
+      | _, _, _, _, _, _, _ => L [N 0]
+      end
+  | _ => L [N 0]
+  end.
